@@ -89,8 +89,13 @@ Definition dec_local (x : sx) : local_res :=
   | _ => LSpawnErr
   end.
 
+(* a pre-existing file: P (kind 0) or ( P KIND ) *)
+Definition dec_pre (x : sx) : path * N :=
+  match x with SL [p; k] => (get_N p, get_N k) | _ => (get_N x, 0) end.
+Definition place_pre (f : fs) (x : sx) : fs := let '(p, k) := dec_pre x in fs_write p (CPre k) f.
+
 Definition enc_content (c : content) : sx :=
-  match c with CPre => sym "pre" | CRemote => sym "remote" | CPartial => sym "partial" | CLocal => sym "local" end.
+  match c with CPre _ => sym "pre" | CRemote => sym "remote" | CPartial => sym "partial" | CLocal => sym "local" end.
 
 Fixpoint ins_sorted (e : path * content) (l : fs) : fs :=
   match l with
@@ -125,7 +130,7 @@ Definition run_fallback (fixed : bool) (x : sx) : sx :=
       let s := {| s_gen := get_bool g; s_dist := get_bool d; s_prep := dec_oclass prep; s_put := dec_oclass put;
                   s_alloc := dec_alloc al; s_submit := dec_submit sub; s_run := dec_run rn;
                   s_rewrite := dec_oclass rw; s_local := dec_local lc |} in
-      let f0 := fold_left (fun f p => fs_write (get_N p) CPre f) pre [] in
+      let f0 := fold_left place_pre pre [] in
       enc_result (dist_or_local fixed s f0)
   | _ => err "bad fallback case"
   end.
@@ -140,7 +145,7 @@ Definition run_request (fixed : bool) (x : sx) : sx :=
       let s := {| s_gen := get_bool g; s_dist := get_bool d; s_prep := dec_oclass prep; s_put := dec_oclass put;
                   s_alloc := dec_alloc al; s_submit := dec_submit sub; s_run := dec_run rn;
                   s_rewrite := dec_oclass rw; s_local := dec_local lc |} in
-      let f0 := fold_left (fun f p => fs_write (get_N p) CPre f) pre [] in
+      let f0 := fold_left place_pre pre [] in
       let r := dist_or_local fixed s f0 in
       match enc_result r with
       | SL [_; _; st; fsx; ran; src] =>
